@@ -18,7 +18,7 @@ pub fn gens() -> Vec<Gen> {
         Gen { name: "c07.issuer_inputs", prop: "C07", tags: &["issuer", "path", "claims", "issuer.rs"], cases: cases_issuer_inputs, check },
         Gen { name: "c07.garbage", prop: "C07", tags: &["garbage", "parse", "lib.rs"], cases: cases_garbage, check },
         Gen { name: "c07.mutated", prop: "C07", tags: &["mutat", "truncate"], cases: cases_mutated, check },
-        Gen { name: "c07.selections", prop: "C07", tags: &["selection", "narrow"], cases: cases_selections, check },
+        Gen { name: "c07.selections", prop: "C07", tags: &["selection", "narrow", "holder.rs"], cases: cases_selections, check },
         Gen { name: "c07.deep", prop: "C07", tags: &["deep", "nest", "stack"], cases: cases_deep, check: check_deep },
         Gen { name: "c07.random_crafted", prop: "C07", tags: &["random"], cases: cases_random_crafted, check },
     ]
